@@ -234,6 +234,31 @@ impl C03 {
                     variants.push(("zero-padded", a, b));
                 }
             }
+            // the public alignment helpers themselves: both results on ONE variable list holding exactly the
+            // union of the names, each number unchanged in value and in every derivative by name
+            for (mode, a, b) in variants.iter() {
+                let rel = T::relationship(a, b);
+                for (helper, (x, y)) in [("to_union_vars", T::union_vars(a, b)), ("to_combined_vars", T::combined_vars(a, b))] {
+                    ctx.eval(1);
+                    ctx.asserted(4);
+                    ctx.class(&format!("align:{}:{}:{}", helper, tname, rel_name(&rel)));
+                    let want: BTreeSet<String> = a.var_names().into_iter().chain(b.var_names()).collect();
+                    let xv = x.var_names();
+                    let got: BTreeSet<String> = xv.iter().cloned().collect();
+                    let same_list = xv == y.var_names();
+                    let unchanged = match (x.to_rnum(), y.to_rnum(), a.to_rnum(), b.to_rnum()) {
+                        (Ok(mx), Ok(my), Ok(ma), Ok(mb)) => maps_close(&mx, &ma, second, 0) && maps_close(&my, &mb, second, 0),
+                        _ => false,
+                    };
+                    if !same_list || got != want || got.len() != xv.len() || !unchanged {
+                        ctx.violation(
+                            &format!("C03|align|{}|{}|{}", helper, tname, rel_name(&rel)),
+                            json!({"type": tname, "helper": helper, "mode": mode, "relationship": rel_name(&rel), "lhs": a.describe(), "rhs": b.describe(),
+                                   "aligned_lhs": x.describe(), "aligned_rhs": y.describe(), "same_variable_list": same_list, "numbers_unchanged_by_name": unchanged}),
+                        );
+                    }
+                }
+            }
             for op in OPS {
                 if op == Op::Rem {
                     let q = ca.v / cb.v;
@@ -439,6 +464,11 @@ impl Prop for C03 {
             }
         }
         v.push("eq:Dual2:one-second-derivative-differs".into());
+        for t in ["Dual", "Dual2"] {
+            for rel in ["ArcEquivalent", "ValueEquivalent", "Superset", "Subset", "Difference"] {
+                v.push(format!("align:to_union_vars:{}:{}", t, rel));
+            }
+        }
         v
     }
     fn min_evaluations(&self, tier: Tier) -> u64 {
